@@ -124,6 +124,9 @@ func snapshotString(r *Real) (out string) {
 	return fmt.Sprintf("node %s, variables {%s}, visits {%s}", s.CurrentNode, strings.Join(vars, " "), strings.Join(visits, " "))
 }
 
+// SnapshotString is snapshotString for other packages.
+func SnapshotString(r *Real) string { return snapshotString(r) }
+
 // NewRealFrom is NewReal for arbitrary readers (short reads, failing readers).
 func NewRealFrom(readers []io.Reader, seed string, storer variable.Storer) (r *Real, err error, panicked string) {
 	defer func() {
@@ -202,7 +205,7 @@ func Diff(m *Obs, r RealObs, f Flags) string {
 	}
 	switch m.K {
 	case OLine:
-		if m.Node != r.Node {
+		if strings.TrimSpace(m.Node) != strings.TrimSpace(r.Node) { // whether blanks around a title belong to it is not settled by the properties
 			return fmt.Sprintf("node: expected %q, got %q (%s)", m.Node, r.Node, r.String())
 		}
 		if !f.IgnoreText && m.TextFixed && m.Text != r.Text {
@@ -212,7 +215,7 @@ func Diff(m *Obs, r RealObs, f Flags) string {
 			return fmt.Sprintf("tags: expected %v, got %v", m.Tags, r.Tags)
 		}
 	case OOptions:
-		if m.Node != r.Node {
+		if strings.TrimSpace(m.Node) != strings.TrimSpace(r.Node) {
 			return fmt.Sprintf("node: expected %q, got %q", m.Node, r.Node)
 		}
 		if len(m.Opts) != len(r.Opts) {
